@@ -55,6 +55,10 @@ pub struct Scenario {
     pub k: usize,
     pub c_seed: u64,
     pub moves: Vec<Move>,
+    /// number of copies of an extra honest proof placed in front of the members, so that the
+    /// members under attack sit beyond the verifier's internal chunk limit (0 = none)
+    #[serde(default)]
+    pub fillers: usize,
 }
 
 pub struct C08;
@@ -97,6 +101,25 @@ fn execute(sc: &Scenario, st: &mut RunStats) -> Vec<Violation> {
         honest.push(parts);
         statements.push(built.public_statement.clone());
     }
+    // filler: one more honest single-commitment proof, repeated in front of the members
+    let filler = if sc.fillers > 0 {
+        let cfg = Config { bits: sc.bits, m: 1, cap: 1, ext: sc.ext };
+        let wit = WitnessSpec { values: vec![0], promises: vec![None], blind_seed: sc.c_seed ^ 0xF111, seed_nonce: None, zero_blind: vec![] };
+        let ctx = Context { label: 5, extra: None };
+        let built = build::<FreePoint>(&cfg, &wit);
+        match prove_mode::<FreePoint>(&ctx, &built.statement, &built.witness, &RngMode::Healthy(sc.c_seed ^ 0xF112)).0 {
+            Ok(Ok(p)) => Some((ctx, built.public_statement.clone(), p)),
+            _ => {
+                out.push(Violation::new("harness:prover_failed", "setup", "filler".to_string()));
+                return out;
+            },
+        }
+    } else {
+        None
+    };
+    if sc.fillers >= 256 {
+        st.fault("members_beyond_chunk_limit");
+    }
     let mut state = State {
         parts: honest.clone(),
         d_off: vec![Scalar::ZERO; n],
@@ -123,9 +146,19 @@ fn execute(sc: &Scenario, st: &mut RunStats) -> Vec<Violation> {
                 Violation::new("harness:perturbed_proof_undecodable", "setup", format!("{:?}", e))
             })?);
         }
-        let ord_sts: Vec<RangeStatement<FreePoint>> = state.order.iter().map(|i| statements[*i].clone()).collect();
-        let ord_pr: Vec<RangeProof<FreePoint>> = state.order.iter().map(|i| proofs[*i].clone()).collect();
-        let ctxs: Vec<&Context> = state.order.iter().map(|i| &sc.members[*i].ctx).collect();
+        let mut ord_sts: Vec<RangeStatement<FreePoint>> = Vec::new();
+        let mut ord_pr: Vec<RangeProof<FreePoint>> = Vec::new();
+        let mut ctxs: Vec<&Context> = Vec::new();
+        if let Some((fctx, fst, fpr)) = &filler {
+            for _ in 0..sc.fillers {
+                ord_sts.push(fst.clone());
+                ord_pr.push(fpr.clone());
+                ctxs.push(fctx);
+            }
+        }
+        ord_sts.extend(state.order.iter().map(|i| statements[*i].clone()));
+        ord_pr.extend(state.order.iter().map(|i| proofs[*i].clone()));
+        ctxs.extend(state.order.iter().map(|i| &sc.members[*i].ctx));
         let obs = observe_verify(&ctxs, &ord_sts, &ord_pr, VerifyAction::VerifyOnly)
             .map_err(|e| Violation::new("harness:observation_unavailable", "observe", e.0))?;
         st.evals += 1;
@@ -337,7 +370,14 @@ impl Check for C08 {
                 _ => Move::CancelPair,
             })
             .collect();
-        Scenario { bits, ext, members, i, j, l: rng.usize_below(n), k: rng.usize_below(ext), c_seed: rng.next_u64(), moves }
+        // one run in twelve places the members behind 256..300 fillers (second chunk), sometimes 512+
+        let fillers = match rng.below(24) {
+            0 => 256,
+            1 => rng.range(257, 300) as usize,
+            _ => 0,
+        };
+        let fillers = if fillers > 0 && tier == Tier::Thorough && rng.chance(1, 4) { 512 + rng.usize_below(8) } else { fillers };
+        Scenario { bits, ext, members, i, j, l: rng.usize_below(n), k: rng.usize_below(ext), c_seed: rng.next_u64(), moves, fillers }
     }
 
     fn execute(&self, sc: &Scenario, st: &mut RunStats) -> Vec<Violation> {
@@ -379,13 +419,23 @@ impl Check for C08 {
             s.k = 0;
             v.push(s);
         }
+        if sc.fillers > 0 {
+            let mut s = sc.clone();
+            s.fillers = 0;
+            v.push(s);
+            if sc.fillers > 256 {
+                let mut s = sc.clone();
+                s.fillers = 256;
+                v.push(s);
+            }
+        }
         v
     }
 
     fn required_probes(&self, _tier: Tier) -> Vec<&'static str> {
         vec![
             "adaptive_cancel_pair", "adaptive_touch_r1", "adaptive_touch_s1", "adaptive_permute", "adaptive_cancel_triple",
-            "resubmit", "ratio_checked_after_response_change",
+            "resubmit", "ratio_checked_after_response_change", "members_beyond_chunk_limit",
         ]
     }
 }
